@@ -1,8 +1,125 @@
 import DepsDev.Drive.Loop
+import DepsDev.Model.Resolve.AttrMachine
 open DepsDev
+open DepsDev.Model.Resolve.Attr DepsDev.Model.Resolve.AttrMachine
 
-/-- Stub: replaced by the property's builder. -/
-def handleC19 : List String → String
-  | _ => "bad-op"
+/-! Line-protocol driver for C19: parses one op line of harness/cmd/c19/machine.go,
+runs it on the model, prints the observations exactly as the harness does. -/
 
-def main : IO Unit := Drive.runDriver "C19" handleC19
+namespace C19Driver
+
+def digitsVal (ds : List Char) : Nat := ds.foldl (fun acc c => acc * 10 + (c.toNat - 48)) 0
+
+/-- the harness's `atoi`: canonical decimal, at most 4 characters. -/
+def atoi (s : String) : Option Int :=
+  let cs := s.toList
+  if cs.length = 0 || cs.length > 4 then none else
+  match cs with
+  | '-' :: ds =>
+    if ds.isEmpty || ds.head? == some '0' || !ds.all Char.isDigit then none
+    else some (-(digitsVal ds : Int))
+  | ds =>
+    if !ds.all Char.isDigit || (ds.length > 1 && ds.head? == some '0') then none
+    else some (digitsVal ds : Int)
+
+def regIdx (s : String) : Option Nat :=
+  match atoi s with
+  | some n => if 0 ≤ n && n < 16 then some n.toNat else none
+  | none => none
+
+def count (s : String) : Option Nat :=
+  match atoi s with
+  | some n => if 0 ≤ n && n ≤ 16 then some n.toNat else none
+  | none => none
+
+def unhex (s : String) : Option Bytes :=
+  if s == "-" then some [] else if s.isEmpty then none else Bytes.ofHex s
+
+def parseOp (tok : String) : Option Op :=
+  match tok.splitOn ":" with
+  | ["n", r] => (regIdx r).map Op.new
+  | ["s", r, k, v] => do some (Op.set (← regIdx r) (← atoi k) (← unhex v))
+  | ["m", r, n] => do
+    let n ← atoi n
+    if n < 0 then none else some (Op.orMask (← regIdx r) n.toNat)
+  | ["c", r, r2] => do some (Op.clone (← regIdx r) (← regIdx r2))
+  | ["y", r, r2] => do some (Op.copy (← regIdx r) (← regIdx r2))
+  | ["k", r, r2] => do some (Op.cmp (← regIdx r) (← regIdx r2))
+  | ["g", r, k] => do some (Op.get (← regIdx r) (← atoi k))
+  | ["r", r] => (regIdx r).map Op.isReg
+  | ["e", r] => (regIdx r).map Op.each
+  | ["t", r] => (regIdx r).map Op.str
+  | ["x", r] => (regIdx r).map Op.vstr
+  | ["w", r] => (regIdx r).map Op.write
+  | ["cl", r] => (regIdx r).map Op.classify
+  | ["p", r, t] => do some (Op.parse (← regIdx r) (← unhex t))
+  | ["q", r, t] => do some (Op.parseSingle (← regIdx r) (← unhex t))
+  | ["rt", r, r2] => do some (Op.roundTrip (← regIdx r) (← regIdx r2))
+  | ["qs", r, k, v] => do some (Op.single (← regIdx r) (← atoi k) (← unhex v))
+  | ["K", n] => (count n).map Op.matrix
+  | ["D", n] => (count n).map Op.dump
+  | _ => none
+
+def b01 (b : Bool) : String := if b then "1" else "0"
+
+def kvs (l : List (Int × Bytes)) : String :=
+  ",".intercalate (l.map fun kv => toString kv.1 ++ ":" ++ Bytes.toHex kv.2)
+
+def cmpStr : Obs → String
+  | .cmp .lt => "-1"
+  | .cmp .eq => "0"
+  | .cmp .gt => "1"
+  | .equal true => "0"
+  | .equal false => "!"
+  | _ => "?"
+
+def cmpChar : Obs → String
+  | .cmp .lt => "<"
+  | .cmp .eq => "="
+  | .cmp .gt => ">"
+  | .equal true => "="
+  | .equal false => "!"
+  | _ => "?"
+
+def dumpReg (d : RegDump) : String :=
+  "m" ++ toString d.mask ++ ";e" ++ (match d.each with | some l => kvs l | none => "~") ++
+  ";g" ++ kvs (d.view.map fun kv => ((kv.1 : Int), kv.2))
+
+/-- `none` = the op makes no observation. -/
+def render : Obs → Option String
+  | .none => none
+  | o@(.cmp _) => some ("k=" ++ cmpStr o)
+  | o@(.equal _) => some ("k=" ++ cmpStr o)
+  | .got (some v) => some ("g=" ++ Bytes.toHex v)
+  | .got none => some "g=!"
+  | .flag tag b => some (tag ++ "=" ++ b01 b)
+  | .each l => some ("e=" ++ kvs l)
+  | .text tag b => some (tag ++ "=" ++ Bytes.toHex b)
+  | .cls a b => some ("cl=" ++ b01 a ++ b01 b)
+  | .parsed tag ok => some (tag ++ "=" ++ (if ok then "ok" else "err"))
+  | .rt text (some o) => some ("rt=" ++ Bytes.toHex text ++ ":ok:" ++ cmpStr o)
+  | .rt text none => some ("rt=" ++ Bytes.toHex text ++ ":err")
+  | .single text ok => some ("qs=" ++ Bytes.toHex text ++ (if ok then ":ok" else ":err"))
+  | .matrix l => some ("K=" ++ String.join (l.map cmpChar))
+  | .dump l => some ("D=" ++ "/".intercalate (l.map dumpReg))
+
+def parseKind : String → Option Kind
+  | "a" => some .a
+  | "d" => some .d
+  | "v" => some .v
+  | _ => none
+
+def handle : List String → String
+  | [] => "bad-op"
+  | k :: toks =>
+    match parseKind k, toks.mapM parseOp with
+    | some kind, some ops =>
+      match runOps kind State.init ops [] with
+      | .ok _ obs => " ".intercalate ("ok" :: obs.filterMap render)
+      | .panic => "panic"
+      | .bad => "bad-op"
+    | _, _ => "bad-op"
+
+end C19Driver
+
+def main : IO Unit := Drive.runDriver "C19" C19Driver.handle
